@@ -269,3 +269,9 @@ impl<T: FileStore> SendTransaction<T> {
         &&& self.file_handle == o.file_handle
     }
 }
+
+
+/// stands for the iterator chain of send_metadata that turns the filestore requests and user messages into TLV options
+#[verifier::external_body]
+pub fn vx_metadata_options(m: &Metadata) -> (r: Vec<MetadataTLV>)
+{ unimplemented!() }
